@@ -237,6 +237,30 @@ def run(chk):
             if prob is None and sc._snapshot() != snap:
                 prob = {"problem": "the child circuit was modified"}
             chk.ob("C06.F.fill_blackbox", key, prob is None, file=FILE, func="Circuit.fill_blackbox", line=ff_.node.lineno, fact=prob or {"connections": str(conns)}, expect="functional substitution; blackbox disappears; sub-blackboxes prefixed")
+    # two recorded instances whose names overlap textually (hierarchical prefixing makes `top_inst` next to `inst`)
+    sc = next(children())[1]
+    bbh = RefBlackBox("blk", sorted(sc.inputs()), sorted(sc.outputs()))
+    for other in ("top_inst", "inst2", "my.inst"):
+        if "." in other:
+            continue
+        p0 = parent()
+        p0.add_blackbox(bbh, "inst", {"x": "A", "y": "B", "c": "T1"})
+        p0.add_blackbox(bbh, other, {"x": "G", "y": "A", "s": "T2"})
+        p1 = p0.copy()
+        r = P.call_method(FILE, "Circuit.fill_blackbox", p1, "inst", sc)
+        n_eval += 1
+        key = f"fill_blackbox::sibling instance named {other}"
+        if r[0] != "return":
+            chk.ob("C06.F.fill_blackbox", key, False, file=FILE, func="Circuit.fill_blackbox", line=ff_.node.lineno, fact={"result": str(r)[:160]})
+            continue
+        ref = p0.copy()
+        ref.fill_blackbox("inst", sc)
+        prob = same_as_reference(p1, ref)
+        if prob is None:
+            for pin in bbh.io():
+                if f"{other}.{pin}" not in p1:
+                    prob = {"problem": "a pin of another, still recorded instance disappeared", "pin": f"{other}.{pin}"}
+        chk.ob("C06.F.fill_blackbox", key, prob is None, file=FILE, func="Circuit.fill_blackbox", line=ff_.node.lineno, fact=prob or {}, expect="only the filled instance's pins are renamed; other instances keep their pins")
     sc = next(children())[1]
     bb_bad = RefBlackBox("blk", ["x"], ["c", "s"])
     p1 = parent()
